@@ -328,6 +328,7 @@ pub fn run_b(sc: &ScenarioB, opts: &BOptions) -> OutcomeB {
     let mut sim = Sim::new();
     sim.poll_interval = sc.poll_interval;
     sim.tau_ps = sc.tau_ps;
+    sim.read_step_ns = sc.clock_read_step_ns;
     sim.node_cap = opts.node_cap;
     seam::install(sim);
 
